@@ -51,7 +51,7 @@ F["F17a"] = ("C03", "structural", {"children": True, "no_exclusions": True},
 F["F17b"] = ("C03", "structural", {"children": True, "no_exclusions": True},
              [S(0, ("A",)), S(1, ("A",)), S(2, ("A",)), {"SetParent": {"slot": 2, "parent": 0}}, *SYNC, {"SetParent": {"slot": 2, "parent": 1}}, T(), XM(), DES(0), T(), DU(), CF()])
 F["F20"] = ("C16", "prespawn", {"vis": 1, "prespawn": True, "no_exclusions": True},
-            [{"PreSpawn": {"client": 0, "slot": 0, "kill": False, "gap": False}}, VIS(0, 0, False), T(), DU(), CF(), VIS(0, 0, True), T(), DU(), CF()])
+            [{"PreSpawn": {"client": 0, "slot": 0, "kill": False, "gap": False, "early": False}}, VIS(0, 0, False), T(), DU(), CF(), VIS(0, 0, True), T(), DU(), CF()])
 
 for name, (prop, unit, over, steps) in F.items():
     cfg = dict(BASE); cfg.update(over)
